@@ -239,6 +239,24 @@ def imported_grammar_scenario():
         shutil.rmtree(tmp, ignore_errors=True)
 
 
+def abstract_with_match_alternative():
+    """an abstract rule with match-rule alternatives (Value: INT | STRING | Obj) typing a list: the processor
+    of the abstract rule runs once per element (objects and primitive values alike), after the element's own"""
+    from textx import metamodel_from_str
+    mm = metamodel_from_str("Model: vals+=Value;\nValue: INT | STRING | Obj;\nObj: 'o' name=ID;")
+    log = []
+    mm.register_obj_processors({'Value': lambda v: log.append(('Value', getattr(v, 'name', v))),
+                                'Obj': lambda o: log.append(('Obj', o.name))})
+    try:
+        mm.model_from_str('o a 5 "s" o b')
+    except Exception as e:  # noqa
+        return ['Value: INT | STRING | Obj with processors on Value and Obj: load raised %s: %s' % (type(e).__name__, e)]
+    exp = [('Obj', 'a'), ('Value', 'a'), ('Value', 5), ('Value', 's'), ('Obj', 'b'), ('Value', 'b')]
+    if log != exp:
+        return ['Value: INT | STRING | Obj: processor calls %s, expected %s' % (log, exp)]
+    return []
+
+
 def replay_subset(subs_first, registered):
     res = processor_subsets((subs_first,))
     for reg, probs in res['bad']:
@@ -295,6 +313,9 @@ def main():
     for pr in imported_grammar_scenario():
         chk.cov['traces_validated_against_impl'] += 1
         chk.violation(pr, {'imported_grammar': True})
+    for pr in abstract_with_match_alternative():
+        chk.cov['traces_validated_against_impl'] += 1
+        chk.violation(pr, {'abstract_match_alt': True})
     chk.cov['bounds']['imported_grammar'] = 'one grammar in three files with a transitive import, processors on every rule (concrete)'
     chk.cov['bounds']['processor_subsets'] = 'every subset of %s x 2 attribute orders on one recursive model' % PS_RULES
     chk.cov['paths_explored'] = paths
@@ -305,6 +326,9 @@ def main():
 
 
 def replay(data):
+    if data.get('abstract_match_alt'):
+        pr = abstract_with_match_alternative()
+        return bool(pr), pr
     if data.get('imported_grammar'):
         pr = imported_grammar_scenario()
         return bool(pr), pr
